@@ -81,8 +81,8 @@ def run(facts, rep, tier):
     plan = F.one_fn("conversions::determine_binop_plan")
     referenced = set()
     if rep.anchor("ZERODIV", "conversions::determine_binop_plan", plan):
-        from engines import all_string_constants
-        idents = sorted(set(v for _, v in all_string_constants(plan)))
+        from engines import all_string_constants, same_file_family
+        idents = sorted(set(v for q in same_file_family(F, plan) for _, v in all_string_constants(F.fns[q])))
         referenced = {"incan_stdlib::num::" + i for i in idents if i.startswith("py_")}
         rep.floor("ZERODIV", "num helpers referenced by the emitter's templates", len(referenced), 7)
         for r in sorted(referenced):
@@ -149,7 +149,8 @@ def run(facts, rep, tier):
                                         % (tag, got, r_sign, b_sign, want), file=fn.file, line=fn.line, fn=fn.path))
     # ---- 2/3 kernels, both copies ------------------------------------------------------------------------
     ktabs = {}
-    for name, (kind, isf) in sorted(KERNELS.items()):
+    kernels, kkey = discover_kernels(F, rep)
+    for name, (kind, isf) in sorted(kernels.items()):
         fn = F.fn(name)
         if not rep.anchor("KERNEL", name, fn):
             continue
@@ -178,9 +179,10 @@ def run(facts, rep, tier):
                                     "%s returns %s when sign(r)=%s, sign(b)=%s; Python's definition gives %s"
                                     % (name, got, r_sign, b_sign, want), file=fn.file, line=fn.line, fn=fn.path))
     rep.exhaustive_tables.append({"table": "kernel sign tables", "cells": sum(len(v) for v in ktabs.values())})
-    for base in ("py_mod_i64_impl", "py_floor_div_i64_impl", "py_mod_f64_impl"):
-        a = ktabs.get("incan_core::" + base)
-        b = ktabs.get("incan_stdlib::num::" + base)
+    for base, (kind, isf) in (("py_mod_i64_impl", ("mod", False)), ("py_floor_div_i64_impl", ("floordiv", False)),
+                              ("py_mod_f64_impl", ("mod", True))):
+        a = ktabs.get(kkey.get(("incan_core", kind, isf)))
+        b = ktabs.get(kkey.get(("incan_stdlib", kind, isf)))
         ok = a is not None and a == b
         rep.oblige("SIBLING", base, ok, sample={"rule": "SIBLING", "kernel": base, "identical_tables": ok})
         if not ok:
@@ -193,6 +195,47 @@ def run(facts, rep, tier):
     nopanic(F, rep)
     # ---- 5 SELECT -----------------------------------------------------------------------------------------
     select(F, rep)
+
+
+def discover_kernels(F, rep):
+    """The correction kernels are found by what they ARE, not by their names: two-argument functions of incan_core /
+    incan_stdlib::num over (i64, i64) or (f64, f64) whose body contains a native `%` — with a native `/` as well it is
+    the floor-division kernel, otherwise the modulo kernel. Renaming them or moving them does not lose them.
+    -> ({path: (kind, is_float)}, {(crate, kind, is_float): path})"""
+    found = {}
+    for p, f in F.fns.items():
+        if f.crate not in ("incan_core", "incan_stdlib") or "{" in p.split("::")[-1] or p.startswith("<"):
+            continue
+        if f.crate == "incan_stdlib" and not p.startswith("incan_stdlib::num::"):
+            continue
+        if f.argc != 2:
+            continue
+        tys = {f.local_ty(1), f.local_ty(2), f.local_ty(0)}
+        if tys not in ({"i64"}, {"f64"}):
+            continue
+        ops = {st["rv"]["op"] for b in f.blocks for st in b["st"] if st["s"] == "assign" and st["rv"]["r"] == "bin"}
+        for _, t in f.calls():
+            last = (callee_generic(t) or "").split("::")[-1]
+            if last in ("wrapping_rem", "checked_rem", "overflowing_rem", "rem_euclid"):
+                ops.add("Rem")
+            if last in ("wrapping_div", "checked_div", "overflowing_div", "div_euclid"):
+                ops.add("Div")
+        if "Rem" not in ops:
+            continue
+        kind = "floordiv" if "Div" in ops else "mod"
+        found.setdefault((f.crate, kind, tys == {"f64"}), []).append(p)
+    kernels, kkey = {}, {}
+    for key, paths in found.items():
+        if len(paths) == 1:
+            kernels[paths[0]] = (key[1], key[2])
+            kkey[key] = paths[0]
+    for name, (kind, isf) in KERNELS.items():          # the names known on the pinned tree, where still present
+        crate = name.split("::")[0]
+        if (crate, kind, isf) not in kkey and name in F.fns:
+            kernels[name] = (kind, isf)
+            kkey[(crate, kind, isf)] = name
+    rep.floor("KERNEL", "correction kernels found in incan_core and incan_stdlib::num", len(kernels), 6)
+    return kernels, kkey
 
 
 def error_text(F, rep):
